@@ -80,6 +80,10 @@ let prop_lines = List.map (fun s -> bytes_of_hex s)
 let site_of (c : string) : string =
   match split_blank c with
   | "cfghdr" :: _ -> "config-headers-DecodeHeader"
+  | "cfghdrs" :: _ -> "config-headers-list-DecodeHTTPConfigHeaders"
+  | "wfile" :: _ -> "scenario-file-weights"
+  | "cfile" :: _ -> "scenario-file-request-list"
+  | "sfile" :: _ -> "scenario-file-ReadAmmoConfig"
   | "tfunc" :: _ -> "templater-function-arguments"
   | "nosrc" :: fmt :: pre :: ps :: _ -> "provider-" ^ fmt ^ (if pre = "1" then "-preload" else "-fullscan") ^ (if ps = "0" then "" else "-passes")
   | ("ammo" | "pfx" | "trunc" | "badhdr") :: fmt :: file :: _ ->
@@ -97,6 +101,11 @@ let site_of (c : string) : string =
   | ["grpcjson"; _; file] -> if file = "-" then "grpcjson-empty-file" else "grpcjson-start-loop"
   | "cfg" :: _ -> "scenario-config-DecodeMap"
   | _ -> "unknown"
+
+(* config.ReadAmmoConfig: the lower-cased file name's suffix selects the parser *)
+let sfmt_of (ext : string) : sfmt =
+  match String.lowercase_ascii ext with
+  | "hcl" -> FHcl | "yaml" -> FYaml | "yml" -> FYml | _ -> FOther
 
 let rec predict_inner (c : string) (obs : string) : string * string * bool =
   let safe p = (p, verdict (not (bad_status (status_of obs))) (site_of c ^ " outcome " ^ status_of obs), true) in
@@ -212,6 +221,52 @@ let rec predict_inner (c : string) (obs : string) : string * string * bool =
         else if blank_key && st <> "newerr" then "BAD:blank-header-key-not-rejected outcome " ^ st
         else "ok" in
       (p, v, true)
+  | "cfghdrs" :: _ :: hs ->
+      (* the `headers` list of the provider config: model = util.DecodeHTTPConfigHeaders + how the decoded
+         list reaches a request without header lines of its own *)
+      let entries = List.map bytes_of_hex hs in
+      let print_m (m : (n list * n list list) list) =
+        let m = List.sort (fun (a, _) (b, _) -> cmp_bytes a b) m in
+        if m = [] then "-"
+        else String.concat ";" (List.map (fun (k, vs) -> hex_of_bytes k ^ "=" ^ String.concat "," (List.map hex_of_bytes vs)) m) in
+      let p = (match provider_new_headers [] entries with
+        | NewErr -> "newerr"
+        | NewOk (host, m) -> "ok " ^ hex_of_bytes host ^ " " ^ print_m m) in
+      (* specification (proved equal to the model's verdict: C13_config_headers_accepted_iff_all_wellformed):
+         a list with a malformed entry at ANY position is rejected with an error *)
+      let st = status_of_first obs in
+      let v =
+        if bad_status (status_of obs) then "BAD:" ^ site_of c ^ " outcome " ^ status_of obs
+        else if not (header_list_okb entries) && st <> "newerr" then
+          "BAD:malformed-header-entry-not-rejected outcome " ^ st
+        else "ok" in
+      (p, v, true)
+  | "wfile" :: ext :: _ :: ws ->
+      let zs = List.map (fun w -> if w = "_" then z_of_int 0 else z_of_string w) ws in
+      let p = (match scenario_weights (sfmt_of ext) zs with
+        | VOk cs -> if List.exists (fun c -> ZT.sign (zt_of_z c) > 0) cs then "ok" else "noammo"
+        | VErr -> "newerr"
+        | VPanic -> "panic") in
+      (* specification: a description with a negative weight is rejected with an error in every format *)
+      let neg = List.exists (fun w -> String.length w > 0 && w.[0] = '-') ws in
+      let st = status_of obs in
+      let v =
+        if bad_status st then "BAD:" ^ site_of c ^ " outcome " ^ st
+        else if neg && not (List.mem st ["newerr"; "err"; "noammo"]) then "BAD:negative-weight-not-rejected outcome " ^ st
+        else "ok" in
+      (p, v, true)
+  | "cfile" :: ext :: _ :: shoots ->
+      let p = (match sfmt_of ext with
+        | FOther -> "newerr"
+        | _ ->
+            (match convert known (List.map bytes_of_hex shoots) [] [] with
+             | VOk (steps, _) -> "ok " ^ merge_rle steps
+             | VErr -> "newerr"
+             | VPanic -> "panic")) in
+      safe p
+  | ["sfile"; _; _; _] ->
+      (* third-party HCL / YAML parsers behind the real provider constructor: fuzzed, not modelled *)
+      safe obs
   | (("pfx" | "trunc" | "badhdr") as kind) :: fmt :: file :: ngood :: toks ->
       let toks = List.filter (fun t -> t <> "") toks in
       let fileb = bytes_of_hex file in
